@@ -547,6 +547,12 @@
 #endif
 #endif
 
+/* verification hooks (poisoning, forced GC, heap checker, slice schedule); */
+/* needs -I<dir containing verif_gc.h> */
+#ifndef SEXP_USE_VERIF_HOOKS
+#define SEXP_USE_VERIF_HOOKS 0
+#endif
+
 #ifndef SEXP_USE_SAFE_GC_MARK
 #define SEXP_USE_SAFE_GC_MARK SEXP_USE_DEBUG_GC > 1
 #endif
